@@ -162,6 +162,8 @@ def checkAssert (s : St) (toks : List String) : Option String :=
   | ["?buf", c, want] => cmp (toString (s.callers (c.toNat?.getD 0)).buf) want
   | ["?wlog", want] => cmp (toString s.wlog.length) want
   | ["?taskloop", want] => cmp (if s.taskLoop then "1" else "0") want
+  | ["?rec", c, want] => cmp (toString (s.callers (c.toNat?.getD 0)).recSize) want   -- Size of the call record
+  | ["?inc", c, want] => cmp (toString (s.callers (c.toNat?.getD 0)).inc.length) want -- replies counted in it
   | _ => some "unknown assertion"
 
 def summary (s : St) : String :=
@@ -192,12 +194,42 @@ def replayGo (s : St) (i : Nat) (steps : Nat) : List (List String) → String
               | _ => ""
             s!"stuck at {i} `{" ".intercalate toks}`: not enabled in the model | {summary s}{who}"
 
-/-- `hasNotifier` is a parameter of the endpoint: the first item may set it -/
+/-- `k=v,k=v,…` (or `-` for the empty list) -/
+def parseAssoc (s : String) : Option (List (Nat × Nat)) :=
+  if s = "-" ∨ s = "" then some []
+  else (s.splitOn ",").mapM fun kv =>
+    match kv.splitOn "=" with
+    | [k, v] => do pure (← k.toNat?, ← v.toNat?)
+    | _ => none
+
+/-- the function that looks its argument up in the list (0 when absent) -/
+def lookupSz (l : List (Nat × Nat)) (k : Nat) : Nat := (List.lookup k l).getD 0
+
+/-- `sizes f:x=bytes,… p:p=len,…`: the frame-size table (by send id) and the
+    response-content-length table (by payload id) of the run -/
+def parseSizes : List String → Option ((Nat → Nat) × (Nat → Nat))
+  | ["sizes", fs, ps] =>
+    match fs.splitOn ":", ps.splitOn ":" with
+    | ["f", fl], ["p", pl] => do
+      let f ← parseAssoc fl
+      let p ← parseAssoc pl
+      pure (lookupSz f, lookupSz p)
+    | _, _ => none
+  | _ => none
+
+/-- `hasNotifier` is a parameter of the endpoint: the first item may set it; so are
+    the size tables `fsize` / `psize`: a `sizes` item right after it may set them -/
 def replay (body : String) : String :=
   let items := (body.splitOn " ; ").map fun e => (e.splitOn " ").filter (· ≠ "")
+  let (s0, i0, items) : St × Nat × List (List String) := match items with
+    | ["notifier", b] :: rest => ({ init with hasNotifier := b = "1" }, 1, rest)
+    | _ => (init, 0, items)
   match items with
-  | ["notifier", b] :: rest => replayGo { init with hasNotifier := b = "1" } 1 0 rest
-  | _ => replayGo init 0 0 items
+  | ("sizes" :: sz) :: rest =>
+    match parseSizes ("sizes" :: sz) with
+    | some (f, p) => replayGo { s0 with fsize := f, psize := p } (i0 + 1) 0 rest
+    | none => s!"bad-action at {i0} `{" ".intercalate ("sizes" :: sz)}`"
+  | _ => replayGo s0 i0 0 items
 
 end T
 end FmpRpc
